@@ -62,7 +62,9 @@ def seedsOk (n : Nat) (s : HeatSpec.Seeds) : Bool :=
   (s.map (·.1)).eraseDups.length == s.length
 
 def handle : Handler
-  | "c14.fit", [al, n, m, ip, ix, dt, v, vr, vc, ini, fb, k, alpha] => some <| Option.getD (do
+  | "c14.fit", [al, n, m, ip, ix, dt, nnz, v, vr, vc, ini, fb, k, alpha] => some <| Option.getD (do
+      -- `nnz`: number of stored entries of the CSR matrix `check_format` builds from the container the code receives
+      let nnz ← nnz.toNat?
       let algo ← algo? al
       let c ← csrRat? n m ip ix dt
       let a : Args := { values := ← values? v, valuesRow := ← values? vr, valuesCol := ← values? vc,
@@ -70,7 +72,7 @@ def handle : Handler
       let k ← k.toInt?
       let alpha ← rat? alpha
       let d := denseOf c
-      match fit algo c.nRow c.nCol c.indices.size (entOf d) a k alpha with
+      match fit algo c.nRow c.nCol nnz (entOf d) a k alpha with
       | .error e => some ("err " ++ e.show)
       | .ok o => some s!"ok {showRatList o.values} {showOpt o.valuesRow} {showOpt o.valuesCol}") "bad-args"
   -- the property's predicate on an implementation output (block numbering when bipartite)
@@ -123,7 +125,7 @@ def handle : Handler
       let tol ← rat? tol
       let out ← ratList? out
       if !seedsOk k s then some "pre-fails seeds" else
-      if !(HeatSpec.symmetric k w && HeatSpec.noSink k w && HeatSpec.connected k w) then some "pre-fails graph" else
+      if !(HeatSpec.nonnegW k w && HeatSpec.allReachSeed k w s) then some "pre-fails graph" else
       match HeatSpec.solveHarmonic k w s with
       | none => some "pre-fails singular"
       | some h =>
@@ -139,7 +141,7 @@ def handle : Handler
       let out1 ← ratList? out1
       let out2 ← ratList? out2
       if !seedsOk k s then some "pre-fails seeds" else
-      if !(HeatSpec.symmetric k w && HeatSpec.noSink k w && HeatSpec.connected k w) then some "pre-fails graph" else
+      if !(HeatSpec.nonnegW k w && HeatSpec.allReachSeed k w s) then some "pre-fails graph" else
       match HeatSpec.solveHarmonic k w s with
       | none => some "pre-fails singular"
       | some h =>
@@ -174,6 +176,35 @@ def handle : Handler
          else decide (HeatSpec.absR (l1 - 1) ≤ tol)) &&
         (!nonnegIn || (List.range c.nCol).all fun j => decide (0 ≤ entOf qq i j))
       some (if ok then "holds" else "fails not-row-stochastic")) "bad-args"
+  -- Dirichlet returns the seeds unchanged: stated for every graph, so evaluated on every Dirichlet output
+  | "c14.spec_boundary", [n, m, bip, s, ov, orow, ocol] => some <| Option.getD (do
+      let nR ← n.toNat?
+      let nC ← m.toNat?
+      let isBip ← bool? bip
+      let s ← seeds? s
+      let ov ← ratList? ov
+      let orow ← optRatList? orow
+      let ocol ← optRatList? ocol
+      let shapeOk := match isBip, orow, ocol with
+        | true, some r, some cc => r.length == nR && cc.length == nC && ov == r
+        | false, none, none => ov.length == nR
+        | _, _, _ => false
+      if !shapeOk then some "fails output-shape" else
+      let out := match orow, ocol with
+        | some r, some cc => r ++ cc
+        | _, _ => ov
+      some (if HeatSpec.boundaryKept s out then "holds" else "fails seeds-changed")) "bad-args"
+  -- what is *returned*: fit_predict(…), predict(), predict(columns=True) against the attributes
+  | "c14.spec_returned", [ov, orow, ocol, fp, pr, prc] => some <| Option.getD (do
+      let ov ← ratList? ov
+      let orow ← optRatList? orow
+      let ocol ← optRatList? ocol
+      let fp ← ratList? fp
+      let pr ← optRatList? pr
+      let prc ← optRatList? prc
+      let o : Out := ⟨ov, orow, ocol⟩
+      some (if fp == o.values && pr == predict o false && prc == predict o true then "holds"
+            else "fails returned-values-differ")) "bad-args"
   -- the same temperatures given as array, list and dict
   | "c14.spec_forms", [o1, o2, o3] =>
       some (if o1 == o2 && o2 == o3 then "holds" else "fails forms-differ")
